@@ -37,7 +37,18 @@ def run(ctx):
         g.pop("trans", None)
         g.pop("outcome", None)
         vecs.append(g)
-    vecs.sort(key=key)
+    # replay dimension of the binding: where MaxResponseBodySize lies relative to the (fresh, 1024-byte)
+    # buffer an oversized body is read into: below / at / above (two shapes); thorough replays all of them
+    limits = [16, 1024, 1500, 2048]
+    exp = []
+    rl = random.Random(ctx.seed * 31 + 7)
+    for v in sorted(vecs, key=key):
+        if any(f.startswith("oversized") for f in v["faults"]):
+            for lim in (limits if not ctx.quick else [rl.choice(limits)]):
+                exp.append(dict(v, limit=lim))
+        else:
+            exp.append(dict(v, limit=16))
+    vecs = exp
     rnd = random.Random(ctx.seed)
     fast = [v for v in vecs if not is_slow(v)]
     slow = [v for v in vecs if is_slow(v)]
@@ -56,6 +67,6 @@ def run(ctx):
     ctx.extra["behaviours_enumerated"] = len(vecs)
     ctx.extra["behaviours_replayed"] = len(chosen)
     ctx.rule = "one case = one (configuration, maximal fault sequence) behaviour; non-trivial = at least one fault followed by a retry decision (fault sequence longer than 1)"
-    ctx.assumptions = ["fault menu: dialErr, writeErr, eofBeforeResponse, readTimeout, oversizedBody, ok; one fault per attempt",
+    ctx.assumptions = ["fault menu: dialErr, writeErr, eofBeforeResponse, readTimeout, oversized body (Content-Length / chunked / close-delimited; MaxResponseBodySize 16, 1024, 1500 or 2048 against a fresh 1024-byte body buffer), ok; one fault per attempt",
                        "methods GET/HEAD/PUT/POST/DELETE; body stream only with PUT/POST; MaxIdemponentCallAttempts in {unset,1,2,3} (and 4 in the thorough tier); callbacks with constant answers",
                        "quick tier replays all behaviours without a real deadline wait and a seeded sample of 500 of those with one; thorough replays all"]
